@@ -8,6 +8,8 @@ import (
 	"path/filepath"
 	"sort"
 	"strings"
+	"sync"
+	"syscall"
 	"testing"
 
 	"github.com/sourcegraph/zoekt"
@@ -30,6 +32,7 @@ import (
 type c13File struct {
 	Content string
 	Exec    bool
+	Link    string `json:",omitempty"` // non-empty: a gitlink (submodule commit id), not a document
 }
 
 type c13Tree map[string]c13File
@@ -96,6 +99,9 @@ func (w *c13World) note(kind, b, path string) {
 }
 
 func (w *c13World) mode(f c13File) string {
+	if f.Link != "" {
+		return "160000"
+	}
 	if f.Exec {
 		return "100755"
 	}
@@ -104,7 +110,13 @@ func (w *c13World) mode(f c13File) string {
 
 func (w *c13World) put(kind, b, path string, f c13File) {
 	w.tree[b][path] = f
-	w.emit(b, func(s *fiStream) { s.modify(w.mode(f), path, []byte(f.Content)) })
+	w.emit(b, func(s *fiStream) {
+		if f.Link != "" {
+			fmt.Fprintf(&s.buf, "M 160000 %s %s\n", f.Link, fiQuote(path))
+			return
+		}
+		s.modify(w.mode(f), path, []byte(f.Content))
+	})
 	w.note(kind, b, path)
 }
 
@@ -132,7 +144,12 @@ func sortedKeys[V any](m map[string]V) []string {
 }
 
 func (w *c13World) pickIn(b string) (string, bool) {
-	l := sortedKeys(w.tree[b])
+	var l []string
+	for _, p := range sortedKeys(w.tree[b]) {
+		if w.tree[b][p].Link == "" {
+			l = append(l, p)
+		}
+	}
 	if len(l) == 0 {
 		return "", false
 	}
@@ -167,7 +184,7 @@ func (w *c13World) other(b string) string {
 	}
 }
 
-var c13Kinds = []string{"add", "add", "modify", "modify", "modify", "delete", "delete", "rename", "revert", "copy-to-other", "same-on-two", "move-between", "chmod"}
+var c13Kinds = []string{"to-gitlink", "from-gitlink", "add", "add", "modify", "modify", "modify", "delete", "delete", "rename", "revert", "copy-to-other", "same-on-two", "move-between", "chmod"}
 
 // op applies one random change; it reports false when the drawn kind is not
 // applicable to the current state.
@@ -230,18 +247,22 @@ func (w *c13World) op() bool {
 		prev := sn[len(sn)-2]
 		for _, p := range sortedKeys(w.tree[b]) {
 			if pf, in := prev[p]; !in || pf != w.tree[b][p] {
-				w.note("revert", b, p)
+				w.curPaths[p] = append(w.curPaths[p], "revert@"+b)
 			}
 		}
 		for _, p := range sortedKeys(prev) {
 			if _, in := w.tree[b][p]; !in {
-				w.note("revert", b, p)
+				w.curPaths[p] = append(w.curPaths[p], "revert@"+b)
 			}
 		}
 		w.tree[b] = prev.clone()
 		w.emit(b, func(s *fiStream) {
 			s.deleteall()
 			for _, p := range sortedKeys(prev) {
+				if prev[p].Link != "" {
+					fmt.Fprintf(&s.buf, "M 160000 %s %s\n", prev[p].Link, fiQuote(p))
+					continue
+				}
 				s.modify(w.mode(prev[p]), p, []byte(prev[p].Content))
 			}
 		})
@@ -271,6 +292,24 @@ func (w *c13World) op() bool {
 		f := w.tree[b][p]
 		w.remove("move-out", b, p)
 		w.put("move-in", o, p, f)
+	case "to-gitlink":
+		// a file replaced, at the same path, by a submodule link (never a document)
+		p, ok := w.pickIn(b)
+		if !ok || w.r.IntN(2) == 0 {
+			return false
+		}
+		w.put(kind, b, p, c13File{Link: fmt.Sprintf("%040x", w.r.Uint64())})
+	case "from-gitlink":
+		var l []string
+		for _, p := range sortedKeys(w.tree[b]) {
+			if w.tree[b][p].Link != "" {
+				l = append(l, p)
+			}
+		}
+		if len(l) == 0 {
+			return false
+		}
+		w.put(kind, b, l[w.r.IntN(len(l))], c13File{Content: w.content()})
 	case "chmod":
 		p, ok := w.pickIn(b)
 		if !ok {
@@ -329,6 +368,9 @@ func (w *c13World) selfCheck() string {
 		want := map[string]string{}
 		for p, f := range w.tree[b] {
 			want[p] = w.mode(f) + " " + blobSHA([]byte(f.Content))
+			if f.Link != "" {
+				want[p] = "160000 " + f.Link
+			}
 		}
 		if len(got) != len(want) {
 			return fmt.Sprintf("branch %s: git has %d paths, model %d", b, len(got), len(want))
@@ -353,6 +395,13 @@ func c13Compare(docs []seenDoc, want c13Tree) []c13Diff {
 		got[d.Name] = append(got[d.Name], d.Content)
 	}
 	var out []c13Diff
+	files := c13Tree{}
+	for p, f := range want {
+		if f.Link == "" {
+			files[p] = f
+		}
+	}
+	want = files
 	for _, p := range sortedKeys(want) {
 		g := got[p]
 		switch {
@@ -397,6 +446,21 @@ func (w *c13World) pattern(path, branch string) string {
 	return "prev[" + part(n-2) + "] last[" + part(n-1) + "]"
 }
 
+func firstShardInode(dir string) uint64 {
+	m, _ := filepath.Glob(filepath.Join(dir, "*.00000.zoekt"))
+	if len(m) != 1 {
+		return 0
+	}
+	fi, err := os.Stat(m[0])
+	if err != nil {
+		return 0
+	}
+	if st, ok := fi.Sys().(*syscall.Stat_t); ok {
+		return st.Ino
+	}
+	return 0
+}
+
 func fallbackClass(logs string) string {
 	i := strings.Index(logs, "falling back to normal build")
 	if i < 0 {
@@ -425,10 +489,25 @@ func TestVerif_C13(t *testing.T) {
 	rec := kit.Open("C13")
 	defer rec.Done()
 	defer captureLogs()()
-	nHist := rec.N(60, 1500)
-	for hi := 0; hi < nHist; hi++ {
-		c13History(rec, hi)
+	nHist := rec.N(40, 1500)
+	// histories are independent (own repository, own index directory, own PRNG
+	// stream, own repository name in zoekt's log lines): run a few side by side
+	var wg sync.WaitGroup
+	next := make(chan int)
+	for k := 0; k < 8; k++ {
+		wg.Add(1)
+		go func() {
+			defer wg.Done()
+			for hi := range next {
+				c13History(rec, hi)
+			}
+		}()
 	}
+	for hi := 0; hi < nHist; hi++ {
+		next <- hi
+	}
+	close(next)
+	wg.Wait()
 }
 
 func c13History(rec *kit.Rec, hi int) {
@@ -451,7 +530,8 @@ func c13History(rec *kit.Rec, hi int) {
 	}
 
 	// history-wide configuration
-	shardMax := []int{0, 0, 150, 400}[r.IntN(4)]
+	repoName := fmt.Sprintf("verif/c13-%d", hi)
+	shardMax := []int{1 << 20, 1 << 20, 150, 400}[r.IntN(4)]
 	threshold := []uint64{0, 0, 2, 4, 50}[r.IntN(5)]
 	repoDir := w.dir
 	if r.IntN(2) == 0 {
@@ -566,20 +646,21 @@ func c13History(rec *kit.Rec, hi int) {
 				Branches: append([]string(nil), idxBranches...),
 				BuildOptions: index.Options{
 					IndexDir:              dir,
-					RepositoryDescription: zoekt.Repository{Name: "verif/c13", ID: 77},
+					RepositoryDescription: zoekt.Repository{Name: repoName, ID: 77},
 					IsDelta:               isDelta,
 					DisableCTags:          true,
 					ShardMax:              shardMax,
+					Parallelism:           1,
 					SizeMax:               sizeMax,
 				},
 				DeltaShardNumberFallbackThreshold: threshold,
 			}
 		}
 		shardsBefore := countShards(idx)
-		captured.take()
+		firstShard := firstShardInode(idx)
 		var ierr error
 		msg, stack, panicked := kit.Guard(func() { _, ierr = gitindex.IndexGitRepo(mk(idx, delta)) })
-		logs := captured.take()
+		logs := captured.takeMatching(fmt.Sprintf("%q", repoName))
 		st.Delta, st.Branches = delta, append([]string(nil), idxBranches...)
 		st.Fallback = fallbackClass(logs)
 		st.Taken = delta && st.Fallback == ""
@@ -596,6 +677,12 @@ func c13History(rec *kit.Rec, hi int) {
 		}
 		if ierr != nil {
 			rec.Violation("index error/"+mode+"/"+kit.MsgClass(ierr.Error()), ierr.Error(), witness(map[string]any{"log": clip(logs, 4000)}))
+			return
+		}
+		// second, log-independent observation of "really a delta build": the first shard
+		// file of the previous build is still the same file
+		if same := firstShard != 0 && firstShardInode(idx) == firstShard; delta && same != st.Taken {
+			rec.Violation("harness/delta-detection-disagrees", fmt.Sprintf("log says taken=%v, first shard kept=%v", st.Taken, same), witness(map[string]any{"log": logs}))
 			return
 		}
 		if st.Taken {
@@ -617,7 +704,7 @@ func c13History(rec *kit.Rec, hi int) {
 		for _, o := range w.curOps {
 			kinds[strings.SplitN(o, "@", 2)[0]] = true
 		}
-		key := fmt.Sprintf("%s|consec=%d|shards=%d|br=%d|%d/%d", strings.Join(sortedKeys(kinds), "+"), consecutive, shardsBefore, len(idxBranches), hi, si)
+		key := fmt.Sprintf("%s|consec=%d|shards=%d|br=%d", strings.Join(sortedKeys(kinds), "+"), consecutive, shardsBefore, len(idxBranches))
 		rec.Case(key, st.Taken && len(w.curOps) > 0, func() any {
 			return map[string]any{"history": hi, "step": si, "ops": w.curOps, "delta_taken": st.Taken, "consecutive_deltas": consecutive,
 				"shards_before": shardsBefore, "shards_after": st.ShardsPost, "indexed_branches": idxBranches}
@@ -629,8 +716,11 @@ func c13History(rec *kit.Rec, hi int) {
 		}
 		// ---- and of a fresh full build
 		fresh := filepath.Join(root, "fresh")
+		if si != nSteps && r.IntN(4) != 0 {
+			continue // the cross-check against a fresh full build runs on the last step and on a quarter of the others
+		}
+		rec.Count("fresh_full_build_cross_checks", 1)
 		msg, stack, panicked = kit.Guard(func() { _, ierr = gitindex.IndexGitRepo(mk(fresh, false)) })
-		captured.take()
 		if panicked || ierr != nil {
 			rec.Violation("index error/fresh-full/"+kit.MsgClass(msg+fmt.Sprint(ierr)), msg+fmt.Sprint(ierr), witness(map[string]any{"stack": stack}))
 			os.RemoveAll(fresh)
